@@ -1129,12 +1129,17 @@ func (fc *fileCtx) l2Expr(e ast.Expr, write bool) ast.Expr {
 			return e // generic instantiation
 		}
 		isMap := fc.isMap(e.X)
+		isSlice := fc.isSliceElem(e)
 		pos := e.Lbrack
 		e.X = fc.l2Expr(e.X, false)
 		e.Index = fc.l2Expr(e.Index, false)
 		if isMap {
 			// an element access is an access to the map itself
 			e.X = fc.wrapMap(e.X, pos, write)
+		}
+		if isSlice {
+			// an element of a slice is a memory location of its own
+			return fc.wrapAccessAt(e, pos, write)
 		}
 		return e
 	case *ast.SliceExpr:
@@ -1237,6 +1242,33 @@ func (fc *fileCtx) l2Expr(e ast.Expr, write bool) ast.Expr {
 		return e
 	}
 	return e
+}
+
+// isSliceElem: e is s[i] with s a slice (element addressable, &s[i] is legal).
+func (fc *fileCtx) isSliceElem(e *ast.IndexExpr) bool {
+	tv, ok := fc.info.Types[e.X]
+	if !ok || tv.Type == nil {
+		return false
+	}
+	if _, isSl := tv.Type.Underlying().(*types.Slice); !isSl {
+		return false
+	}
+	// skip elements whose type is a synchronisation primitive
+	if etv, ok := fc.info.Types[e]; ok && isSyncType(etv.Type) {
+		return false
+	}
+	return true
+}
+
+func (fc *fileCtx) wrapAccessAt(e ast.Expr, pos token.Pos, write bool) ast.Expr {
+	name, kind := "RP", "elrd"
+	if write {
+		name, kind = "WP", "elwr"
+	}
+	st.sites[kind]++
+	p := fc.fset.Position(pos)
+	site := &ast.BasicLit{Kind: token.STRING, Value: strconv.Quote(fmt.Sprintf("%s:%d:%s@%s", filepath.Base(p.Filename), p.Line, kind, fc.fn))}
+	return &ast.ParenExpr{X: &ast.StarExpr{X: fc.rt(name, &ast.UnaryExpr{Op: token.AND, X: e}, site)}}
 }
 
 func (fc *fileCtx) isMap(e ast.Expr) bool {
